@@ -291,6 +291,13 @@ def _steps(ctx, fn, frm, to, loops, res):
         out['problems'].append('step count has several definitions')
         return out
     rounding = 'cast'
+    if n is not None and n[0] == 'call' and n[1] in ('core::f64::<impl f64>::min', 'std::f64::<impl f64>::min') and len(n[2]) == 2:
+        # n = min(round(..), M): the step count is capped
+        for (x, y) in ((n[2][0], n[2][1]), (n[2][1], n[2][0])):
+            cy = const_float(y)
+            if cy is not None and len(x) == 1:
+                out['cap'] = cy
+                n = next(iter(x))
     if n is not None and n[0] == 'call' and n[1] in ('std::f64::<impl f64>::ceil', 'std::f64::<impl f64>::floor', 'std::f64::<impl f64>::round'):
         rounding = n[1].rsplit('::', 1)[1]
         n = _single(n[2][0])
